@@ -85,3 +85,18 @@ Definition impl_gen_old (params : list gparam) (self_ty : list string) (hm0 : li
 
 (* ---- a hypothetical reordering of process_met: retain BEFORE the Self substitution (Self is then an opaque token) ---- *)
 Definition impl_gen_retain_first (params hm0 : list gparam) (ms : list meth) : mod_gen := impl_gen params ["Self"] hm0 ms.
+
+(* ---- where-predicates of the impl (after fix_where_private_generic): a predicate (its tokens) that mentions a private
+   parameter follows that parameter onto the generated `direct` / `play` functions, every other predicate stays on the
+   Script impl; with `full` generics nothing is private ---- *)
+Definition mentions_private (hm : list gparam) (wp : list string) : bool := existsb (includes wp) hm.
+
+Definition impl_private_preds (params : list gparam) (self_ty : list string) (hm0 : list gparam) (ms : list meth) (preds : list (list string)) :=
+  if full ms then [] else filter (mentions_private (fold_left (step_retain self_ty) ms hm0)) preds.
+Definition impl_script_preds (params : list gparam) (self_ty : list string) (hm0 : list gparam) (ms : list meth) (preds : list (list string)) :=
+  if full ms then preds else filter (fun wp => negb (mentions_private (fold_left (step_retain self_ty) ms hm0) wp)) preds.
+
+Definition spec_private_preds (params : list gparam) (self_ty : list string) (ms : list meth) (preds : list (list string)) :=
+  if full ms then [] else filter (mentions_private (unused params self_ty ms)) preds.
+Definition spec_script_preds (params : list gparam) (self_ty : list string) (ms : list meth) (preds : list (list string)) :=
+  if full ms then preds else filter (fun wp => negb (mentions_private (unused params self_ty ms) wp)) preds.
